@@ -35,12 +35,12 @@ Lemma C33_pin_nullifier_preimage :
   nullifier_preimage_capacity = 9 /\
   zlen NULLIFIER_SALT_FELTS = 3 /\ POSEIDON2_OUTPUT = 4 /\ FELTS_PER_U64 = 2 /\
   zlen NULLIFIER_SALT_FELTS + POSEIDON2_OUTPUT + FELTS_PER_U64 <= nullifier_preimage_capacity.
-Proof. repeat split; try reflexivity. discriminate. Qed.
+Proof. repeat split; first [reflexivity | discriminate]. Qed.
 (* Nullifier::to_bytes: with_capacity(DIGEST_BYTES_LEN + SECRET_BYTES_LEN + size_of::<u64>()), pushes 32 + 32 + 8 *)
 Lemma C33_pin_nullifier_bytes :
   DIGEST_BYTES_LEN + NULLIFIER_SECRET_BYTES_LEN + U64_BYTES = 72 /\
   DIGEST_BYTES_LEN + DIGEST_BYTES_LEN + U64_BYTES <= DIGEST_BYTES_LEN + NULLIFIER_SECRET_BYTES_LEN + U64_BYTES.
-Proof. split; [reflexivity|discriminate]. Qed.
+Proof. split; first [reflexivity | discriminate]. Qed.
 (* Nullifier::to_field_elements: with_capacity(NULLIFIER_SIZE_FELTS), pushes 4 + 4 + 2 *)
 Lemma C33_pin_nullifier_felts :
   NULLIFIER_SIZE_FELTS = 10 /\
